@@ -423,10 +423,16 @@ InstancesOf(f) ==
       [] f = "rebind"   -> {Mk(f, n, k, 0, 2) : n \in NSet, k \in 0..3}
       \* (form 3: form 1 whose yielding function ends with `return <-c`, one pinned instance)
       [] f = "iface"    -> {Mk(f, n, k, 0, 2) : n \in NSet, k \in 0..2} \cup {Mk(f, 1, 3, 0, 2)}
-      [] f \in {"pool", "drain"} -> {Mk(f, n, 0, b, 3) : n \in NSet, b \in BSet}
+      \* pool: k = rendering form of the go statement that starts a worker (0: `go worker(i, jobs, res)`; 1: the
+      \* statement stands in a function literal called on the spot, `func() { go func() { worker(i, jobs, res) }() }()`,
+      \* so that the goroutine reads the per-iteration variables of the loop through two closure environments)
+      [] f = "pool"     -> {Mk(f, n, k, b, 3) : n \in NSet, b \in BSet, k \in {0, 1}}
+      [] f = "drain"    -> {Mk(f, n, 0, b, 3) : n \in NSet, b \in BSet}
       \* privsel: b = capacity of quit; k = rendering form of the send case (0: the value is
       \* computed before the select, 1: `case in <- id*10+j`), one pinned instance of form 1
+      \* (form 2: form 0 with the two go statements of an iteration inside a function literal called on the spot)
       [] f = "privsel"  -> {Mk(f, n, 0, b, 2) : n \in NSet, b \in BSet \cap {0, 1}} \cup {Mk(f, 1, 1, 0, 2)}
+                           \cup {Mk(f, n, 2, 0, 2) : n \in NSet}
       [] f = "counter"  -> {Mk(f, n, k, 0, 2) : n \in Many, k \in {1, 2}}               \* k: rendering form
       [] f = "nolock"   -> {Mk(f, 2, 0, 0, 2)}
       [] f = "earlyclose" -> {Mk(f, 2, 0, 1, 2)}
